@@ -45,9 +45,11 @@ def main():
                 lines = out.strip().split("\n")
                 meta["check_rc"] = rc
                 meta["check_violation_lines"] = len([l for l in lines if l.startswith("VIOLATION")])
+                # did the search find a concrete failing input (a VIOLATION line that does not end no-failing-input-found)?
+                meta["failing_input_found"] = any(l.startswith("VIOLATION") and not l.rstrip().endswith("no-failing-input-found") for l in lines)
                 meta["check_signatures"] = next((l for l in lines if "violation signatures" in l), "")[:1500]
                 meta["caught"] = rc == 1 and meta["check_violation_lines"] > 0
-                print(sid, "caught" if meta["caught"] else "MISSED", meta["check_signatures"][:160], flush=True)
+                print(sid, "caught" if meta["caught"] else "MISSED", "input" if meta["failing_input_found"] else "NO-INPUT", meta["check_signatures"][:140], flush=True)
             json.dump(meta, open(os.path.join(d, "meta.json"), "w"), indent=1)
             summary.append(meta)
     finally:
